@@ -78,6 +78,28 @@ fn rejects(out: &mut dyn Write, n: usize, seed: u64) -> i32 {
     0
 }
 
+fn refc_debug(out: &mut dyn Write, path: &str) -> i32 {
+    let v = report::read_json(std::path::Path::new(path)).unwrap();
+    let case: sem::SemCase = serde_json::from_value(v["case"].clone()).unwrap();
+    let src = case.source();
+    writeln!(out, "{}", src).ok();
+    if let sem::Built::Ok(_, img) = sem::build(&src, &case.opts(), case.layout_shuffle) {
+        for init in &case.inits {
+            for rd in refc::READINGS.iter() {
+                let mut it = refc::Interp::new(&case.prog, &img.layout, *rd, init, 20000).unwrap();
+                it.set_signed_char_default(case.signed_chars);
+                match it.run_main() {
+                    Ok(fs) => { writeln!(out, "{:?}\n   -> x={} y={} trace={:x} {:?}", rd, fs.x, fs.y, fs.trace, fs.globals).ok(); }
+                    Err(e) => { writeln!(out, "{:?}\n   -> ABORT {:?}", rd, e).ok(); }
+                }
+            }
+            let r = sem::run_image(&img, init, 100000);
+            writeln!(out, "EMU {:?} x={} y={} {:?}", r.stop, r.x, r.y, sem::observable(&case.prog, &r)).ok();
+        }
+    }
+    0
+}
+
 fn main() {
     let argv: Vec<String> = std::env::args().collect();
     cc::install_panic_hook();
@@ -100,6 +122,7 @@ fn main() {
     let code = match argv.get(1).map(|s| s.as_str()) {
         Some("probe") => probe(&argv[2..], &mut out),
         Some("rejects") => rejects(&mut out, pos.get(0).and_then(|s| s.parse().ok()).unwrap_or(500), seed),
+        Some("refc") => refc_debug(&mut out, &pos.get(0).cloned().unwrap_or_default()),
         Some("replay") => {
             let path = pos.get(0).cloned().unwrap_or_default();
             match report::read_json(std::path::Path::new(&path)) {
